@@ -90,6 +90,8 @@ def sig_of(m: dict) -> dict:
                 want = {'systems': exp} if isinstance(exp, list) else {}
                 if want and lower(want) == lower(got) and want != got:
                     cause = 'option_case'
+    if rec.get('k') == 'imgenc':
+        cause = f"{rec['enc']}/{rec['chars']}"
     sig['cause'] = cause
     sig['group'] = '.'.join(clause.split('.')[:2])
     sig['record'] = {k: v for k, v in rec.items() if k not in ('sig', 'back', 'second', 'scenes')}
@@ -226,7 +228,7 @@ def run(tier: str, seed: int) -> int:
         return fn
 
     try:
-        jobs = [timed('image', image)] + [timed('cases_' + f, cases(f)) for f in ('snd', 'vcd', 'bvcd', 'cmdseq', 'pcf', 'vmt', 'smd')] \
+        jobs = [timed('image', image)] + [timed('cases_' + f, cases(f)) for f in ('snd', 'vcd', 'bvcd', 'cmdseq', 'pcf', 'vmt', 'smd', 'imgenc')] \
             + [timed(m, beyond(m)) for m in ('random', 'samples')]
         total = new_cov()
         allm: list = []
